@@ -57,6 +57,28 @@ class Term:
         return hash((self.kind, self.args))
 
 
+class Keys(list):
+    """dict keys view: iterates in order, compares as a set"""
+
+    def __eq__(self, o):
+        return isinstance(o, (list, set, frozenset, tuple)) and set(self) == set(o)
+
+    def __ne__(self, o):
+        return not self.__eq__(o)
+
+    __hash__ = None
+
+
+def _concrete(v) -> bool:
+    if isinstance(v, (int, float, str, bool, type(None))):
+        return True
+    if isinstance(v, dict):
+        return all(_concrete(k) and _concrete(x) for k, x in v.items())
+    if isinstance(v, (list, tuple)) and not isinstance(v, Vec1):
+        return all(_concrete(x) for x in v)
+    return False
+
+
 class Opaque:
     """a value the caller's resolver produced that the evaluator only passes around"""
 
@@ -183,12 +205,14 @@ class Evaluator:
             return
         if isinstance(s, ast.If):
             t = self.ev(s.test, f)
-            if t is UNKNOWN or not isinstance(t, (bool, int, list, tuple, type(None), str)):
+            if t is UNKNOWN or not isinstance(t, (bool, int, list, tuple, type(None), str, dict)):
                 raise NotEval("undetermined branch")
             self.block(s.body if t else s.orelse, f)
             return
         if isinstance(s, ast.For):
             it = self.ev(s.iter, f)
+            if isinstance(it, dict):
+                it = list(it.keys())
             if not isinstance(it, (list, tuple, range)):
                 raise NotEval("loop over a non-sequence")
             for x in list(it):
@@ -315,6 +339,8 @@ class Evaluator:
                     r = (a is None) == (b is None)
                     return r if isinstance(op, ast.Is) else not r
                 raise NotEval("identity test")
+            if isinstance(op, (ast.Eq, ast.NotEq)) and _concrete(a) and _concrete(b) and not all(isinstance(x, (int, float, str, bool)) for x in (a, b)):
+                return (a == b) if isinstance(op, ast.Eq) else (a != b)
             if all(isinstance(x, (int, float, str, bool)) for x in (a, b)):
                 return {ast.Lt: a < b, ast.LtE: a <= b, ast.Gt: a > b, ast.GtE: a >= b, ast.Eq: a == b, ast.NotEq: a != b}.get(type(op), None) if type(op) in (ast.Lt, ast.LtE, ast.Gt, ast.GtE, ast.Eq, ast.NotEq) else self._raise("compare")
             if isinstance(op, (ast.In, ast.NotIn)) and isinstance(b, (list, tuple)) and all(isinstance(x, (int, str)) for x in list(b) + [a]):
@@ -353,6 +379,8 @@ class Evaluator:
             return
         g = gens[i]
         it = self.ev(g.iter, f)
+        if isinstance(it, dict):
+            it = list(it.keys())
         if not isinstance(it, (list, tuple, range)):
             raise NotEval("comprehension over a non-sequence")
         saved = dict(f.env)
@@ -480,10 +508,17 @@ class Evaluator:
                 return self.ev(fn.value, f)
             if m == "to":
                 return self.ev(fn.value, f)
-            if m in ("keys",) and not e.args:
+            if m in ("keys", "values", "items") and not e.args:
                 v = self.ev(fn.value, f)
                 if isinstance(v, dict):
-                    return list(v.keys())
+                    return Keys(v.keys()) if m == "keys" else (list(v.values()) if m == "values" else [tuple(kv) for kv in v.items()])
+            if m == "index" and len(e.args) == 1 and not e.keywords:
+                v = self.ev(fn.value, f)
+                x = self.ev(e.args[0], f)
+                if isinstance(v, (list, tuple)) and _concrete(x) and all(_concrete(y) for y in v):
+                    if x in v:
+                        return list(v).index(x)
+                    raise NotEval("index of a missing element")
         if name == "isinstance" and len(e.args) == 2:
             v = self.ev(e.args[0], f)
             types = ast.unparse(e.args[1])
@@ -508,6 +543,8 @@ class Evaluator:
             if not a:
                 return [] if name == "list" else ()
             v = a[0]
+            if isinstance(v, dict):
+                v = list(v.keys())
             if isinstance(v, (list, tuple, range)):
                 if name == "reversed":
                     return list(reversed(list(v)))
